@@ -195,20 +195,23 @@ Definition trigger_get (s : state) : option state :=
 Inductive action :=
 | ARequest (p : nat) (prio : Z) (pre : bool)   (* process p calls resource.request(prio, pre)  (request() for KRes) *)
 | ARelease (r : nat)                           (* somebody calls resource.release(<request r>) *)
-| ACancel (r : nat)                            (* <request r>.cancel()   (also __exit__ with GeneratorExit) *)
-| AExit (r : nat)                              (* <request r>.__exit__(...) : cancel(), then resource.release(self) *)
+| ACancel (p : nat) (r : nat)                  (* process p calls <request r>.cancel()   (also __exit__ with GeneratorExit) *)
+| AExit (p : nat) (r : nat)                    (* process p leaves `with <request r>`: __exit__ = cancel(), then resource.release(self) *)
 | AProcess (e : ev)                            (* the kernel's step() processes the triggered event e *)
 | AAdvance (t : Z).                            (* the clock moves to t *)
-
-(* Put.cancel:  if not self.triggered: self.resource.put_queue.remove(self)      (ValueError when absent) *)
-Definition cancel (s : state) (r : nat) : option state :=
-  if existsb (Nat.eqb r) (granted s) then Some s
-  else if has_id r (queue s) then Some (set_queue s (remove_id r (queue s)))
-  else None.
 
 (* Release.__init__ / Get.__init__:  get_queue.append(self); callbacks.append(_trigger_put); _trigger_get(None) *)
 Definition release (s : state) (r : nat) : option state :=
   trigger_get (bump_id (set_getq s (getq s ++ [(next_id s, r)]))).
+
+(* Put.cancel (as repaired by the fix: commit of C07):
+     if not self.triggered:
+         self.resource.put_queue.remove(self)          (ValueError when absent)
+         self.resource._trigger_put(None)              (rescan; p is the active process) *)
+Definition cancel (k : kind) (cap : nat) (p : nat) (s : state) (r : nat) : option state :=
+  if existsb (Nat.eqb r) (granted s) then Some s
+  else if has_id r (queue s) then trigger_put k cap (Some p) (set_queue s (remove_id r (queue s)))
+  else None.
 
 Definition step (k : kind) (cap : nat) (s : state) (a : action) : option state :=
   match a with
@@ -218,8 +221,8 @@ Definition step (k : kind) (cap : nat) (s : state) (a : action) : option state :
       let e := mkReq (next_id s) p prio (now s) pre None in
       trigger_put k cap (Some p) (bump_id (set_queue s (enqueue k (queue s) e)))
   | ARelease r => release s r
-  | ACancel r => cancel s r
-  | AExit r => match cancel s r with Some s1 => release s1 r | None => None end
+  | ACancel p r => cancel k cap p s r
+  | AExit p r => match cancel k cap p s r with Some s1 => release s1 r | None => None end
   | AProcess e =>
       if has_ev e (pending s) then
         let s1 := set_pending s (remove_ev e (pending s)) in
@@ -233,8 +236,9 @@ Definition step (k : kind) (cap : nat) (s : state) (a : action) : option state :
 
 (* ---- admissible histories ----------------------------------------------------------------------------
    - a process holds or awaits at most one request of the resource (the quantifier of C06),
-   - cancel()/__exit__ is called on a request that is still queued or has been granted (a second cancel
-     of a cancelled request raises ValueError in list.remove; no claim is made about it),
+   - cancel()/__exit__ is called on a request that has been granted, or is still queued and then by the
+     process that made it (a second cancel of a cancelled request raises ValueError in list.remove; no
+     claim is made about it),
    - the kernel processes only events that are triggered and unprocessed,
    - the clock advances only when no triggered event of the resource is unprocessed (they are all
      scheduled for `now`; C01), and it moves forward. *)
@@ -242,7 +246,8 @@ Definition adm (s : state) (a : action) : bool :=
   match a with
   | ARequest p _ _ => forallb (fun r => negb (rproc r =? p)) (users s ++ queue s)
   | ARelease _ => true
-  | ACancel r | AExit r => existsb (Nat.eqb r) (granted s) || has_id r (queue s)
+  | ACancel p r | AExit p r =>
+      existsb (Nat.eqb r) (granted s) || existsb (fun x => (rid x =? r) && (rproc x =? p)) (queue s)
   | AProcess e => has_ev e (pending s)
   | AAdvance t => match pending s with [] => (now s <? t)%Z | _ => false end
   end.
@@ -348,8 +353,8 @@ Fixpoint first_bad (k : kind) (cap : nat) (s : state) (n : nat) (l : list (actio
 Definition zn (z : Z) : nat := Z.to_nat z.
 Definition Rq (p prio : Z) (pre : bool) : action := ARequest (zn p) prio pre.
 Definition Rl (r : Z) : action := ARelease (zn r).
-Definition Cn (r : Z) : action := ACancel (zn r).
-Definition Ex (r : Z) : action := AExit (zn r).
+Definition Cn (p r : Z) : action := ACancel (zn p) (zn r).
+Definition Ex (p r : Z) : action := AExit (zn p) (zn r).
 Definition Pq (i : Z) : action := AProcess (EReq (zn i)).      (* a Request event is processed *)
 Definition Pr (i : Z) : action := AProcess (ERel (zn i)).      (* a Release event is processed *)
 Definition Ad (t : Z) : action := AAdvance t.
